@@ -231,6 +231,7 @@ func runC30(c *Ctx) {
 	c.OnlyIn("use of the raw reader of a broker", c.WhoTouches("baseBroker", "Reader"), 4,
 		"network/quicstream/header.newBaseBroker", B+"read", B+"readLength", B+"readLengthed", B+"readBody")
 	ensureReadRules(c)
+	lengthedAllocRules(c)
 	for _, t := range [][2]string{{"read", "util.EnsureRead"}, {"readLength", "util.ReadLength"}, {"readLengthed", "util.ReadLengthed"}} {
 		if fn := c.Need(B + t[0]); fn != nil {
 			c.Exists(fn, t[0]+" reads through "+t[1], c.CallsTo(fn, t[1]), 1)
